@@ -35,10 +35,14 @@ UNITS = {
     "days": {"days": 1},
     "weeks": {"weeks": 1},
     "mixed": {"hours": 1, "minutes": 30, "seconds": 15, "milliseconds": 250},
+    "default": None,        # no timeout given: the documented default of 12 hours
+    "plural-seconds": {"seconds": 7},   # created through /start-instances
 }
 
 
 def td(unit):
+    if UNITS[unit] is None:
+        return datetime.timedelta(hours=12)
     return datetime.timedelta(**UNITS[unit])
 
 
@@ -132,7 +136,10 @@ class System:
         try:
             if k == "create":
                 self._sweep(impl, ref)
-                iid = srv.start_instance(c, timeout=dict(UNITS[op[1]]))
+                if op[1] == "plural-seconds":
+                    iid = srv.body(c.post("/start-instances", json={"instances": 1, "timeout": dict(UNITS[op[1]])}))["instance_uuids"][0]
+                else:
+                    iid = srv.start_instance(c, timeout=dict(UNITS[op[1]]) if UNITS[op[1]] is not None else None)
                 alias = ref.n
                 ref.n += 1
                 impl.ids.append(iid)
@@ -334,7 +341,7 @@ def configs(tier):
     names = list(UNITS)
     out = []
     if tier == "quick":
-        pairs = [("seconds", "minutes"), ("microseconds", "weeks"), ("milliseconds", "hours"), ("days", "mixed")]
+        pairs = [("seconds", "minutes"), ("microseconds", "weeks"), ("milliseconds", "hours"), ("days", "mixed"), ("default", "plural-seconds")]
     else:
         pairs = [(names[i], names[(i + 3) % len(names)]) for i in range(len(names))]
     for p in pairs:
